@@ -408,12 +408,153 @@ func (ix *idxEngine) nonNilByRange(fn *ssa.Function, call *ssa.Call, callee *ssa
 			goals = append(goals, constraint{out, cs.why})
 		}
 	}
+	lifted := 0
 	for _, g := range goals {
 		if ok, _ := p2.prove(g, call, extra, 0); !ok {
+			if okL, _ := ix.liftFieldGuard(fn, call, g, extra, recvVal); okL {
+				lifted++
+				continue
+			}
 			return false, "cannot show the callee's non-nil guard at this call: " + g.e.String() + " <= 0"
 		}
 	}
+	if lifted > 0 {
+		return true, fmt.Sprintf("the callee returns non-nil when its %d guard(s) hold; %d of them follow from a bound on this function's parameters that is proved at every one of its call sites", len(goals), lifted)
+	}
 	return true, fmt.Sprintf("the callee returns non-nil when its %d guard(s) hold; they are proved from the arguments here", len(goals))
+}
+
+// liftFieldGuard: the guard  X + .. <= fieldnow(recv.f)  could not be shown inside fn. If fn is internal, recv is
+// one of fn's parameters (or an immutable field of one) and some parameter term A of fn satisfies
+//   (A <= fieldnow(recv.f))  =>  guard,
+// then it suffices that at every call site of fn the actual for A is <= the current value of that field of the
+// actual receiver: the field never decreases, so the bound still holds when the inner call is made.
+func (ix *idxEngine) liftFieldGuard(fn *ssa.Function, call *ssa.Call, g constraint, extra []constraint, recvVal ssa.Value) (bool, string) {
+	if ix.isEntry(fn) || recvVal == nil {
+		return false, ""
+	}
+	p2 := ix.proverFor(fn)
+	// the fieldnow term of the goal
+	var now string
+	for t := range g.e.coef {
+		if strings.HasPrefix(t, "fieldnow(") {
+			if now != "" {
+				return false, ""
+			}
+			now = t
+		}
+	}
+	if now == "" {
+		return false, ""
+	}
+	fname := now[strings.LastIndex(now, ".")+1 : len(now)-1]
+	// receiver as a path from a parameter
+	parIdx, viaField := -1, (*types.Var)(nil)
+	recv := recvVal
+	if f1, base := loadedField(recv); f1 != nil {
+		if !ix.immutableField(f1) {
+			return false, ""
+		}
+		viaField = f1
+		recv = base
+	}
+	for i, par := range fn.Params {
+		if recv == ssa.Value(par) {
+			parIdx = i
+		}
+	}
+	if parIdx < 0 {
+		return false, ""
+	}
+	sites := ix.callSitesOf(fn)
+	if len(sites) == 0 {
+		return false, ""
+	}
+	for _, a := range p2.paramTerms() {
+		cand := leq(linTerm(a.Term), linTerm(now), "requires "+a.Term+" <= "+now)
+		if ok, _ := p2.prove(g, call, append(append([]constraint{}, extra...), cand), 0); !ok {
+			continue
+		}
+		good := true
+		for _, s := range sites {
+			tr, ok := ix.translate(fn, constraint{linTerm(a.Term), ""}, s)
+			acts := actualsOf(s.Call, fn)
+			if !ok || parIdx >= len(acts) || acts[parIdx] == nil {
+				good = false
+				break
+			}
+			ps := ix.proverFor(s.Fn)
+			act := acts[parIdx]
+			sameRecv := func(r2 ssa.Value) bool {
+				if viaField == nil {
+					return ps.canon(r2) == ps.canon(act)
+				}
+				f2, b2 := loadedField(r2)
+				return f2 == viaField && ps.canon(b2) == ps.canon(act)
+			}
+			nowS := "fieldnow(" + ps.canon(act) + "/" + fname + ")"
+			var ex []constraint
+			var fld *types.Var
+			eachInstr(s.Fn, func(in ssa.Instruction) {
+				c2, ok := in.(*ssa.Call)
+				if !ok || ssa.Instruction(c2) == s.Call.(ssa.Instruction) || !instrDominates(c2, s.Call.(ssa.Instruction)) {
+					return
+				}
+				var r2 ssa.Value
+				if c2.Call.IsInvoke() {
+					r2 = c2.Call.Value
+				} else if len(c2.Call.Args) > 0 {
+					r2 = c2.Call.Args[0]
+				}
+				if r2 == nil || !sameRecv(r2) {
+					return
+				}
+				cs2 := ix.eff.calleesAt(s.Fn, c2)
+				if len(cs2) == 0 {
+					return
+				}
+				for _, g2 := range cs2 {
+					gf := getterField(skipWrappers(g2))
+					if gf == nil || gf.Name() != fname || !ix.nonDecreasingField(gf) {
+						return
+					}
+					fld = gf
+				}
+				ex = append(ex, leq(ps.linOf(c2), linTerm(nowS), "an earlier getter on the same receiver is <= the field now"))
+			})
+			_ = fld
+			goal := leq(tr.e, linTerm(nowS), "bound on the callee's parameter")
+			if ok, _ := ps.prove(goal, s.Call.(ssa.Instruction), ex, 0); !ok {
+				good = false
+				break
+			}
+		}
+		if good {
+			return true, cand.why
+		}
+	}
+	return false, ""
+}
+
+// getterField: every return of f is a load of one field of its receiver; returns that field.
+func getterField(f *ssa.Function) *types.Var {
+	if f == nil || len(f.Params) == 0 {
+		return nil
+	}
+	var out *types.Var
+	rets := returnsOf(f)
+	for _, ret := range rets {
+		rv := results(ret)
+		if len(rv) != 1 {
+			return nil
+		}
+		fl, base := loadedField(rv[0])
+		if fl == nil || base != ssa.Value(f.Params[0]) || (out != nil && out != fl) {
+			return nil
+		}
+		out = fl
+	}
+	return out
 }
 
 // isGetterOf: every return of f is a load of field fld of its receiver.
